@@ -437,6 +437,8 @@ type spec struct {
 	File     map[string]string `json:"file,omitempty"`  // leaf Go path -> canonical text
 	Flags    map[string]string `json:"flags,omitempty"` // flag name -> text
 	Gen      *genSpec          `json:"genesis,omitempty"`
+	Shape    string            `json:"shape,omitempty"` // resave / genesis-resave: the sequence shape
+	Seq      []seqOp           `json:"seq,omitempty"`   // resave / genesis-resave: the operations on ONE home (resave_test.go)
 }
 
 func (s spec) key() string { bz, _ := json.Marshal(s); return string(bz) }
@@ -517,6 +519,33 @@ type outcome struct {
 	fileText string
 }
 
+// loadArgs parses the arguments on a fresh command and loads through the given driver; herr = harness-side problem.
+func loadArgs(driver string, args []string) (got config.Config, lerr error, herr error) {
+	cmd := newCmd()
+	if err := cmd.ParseFlags(args); err != nil {
+		return got, nil, fmt.Errorf("flag parsing failed (%v): %w", args, err)
+	}
+	switch driver {
+	case drvLoad:
+		got, lerr = config.Load(cmd)
+	case drvViperSet:
+		// the way the repository's own TestLoadFromViper drives it: explicit Set of the home and of each given flag
+		v := viper.New()
+		cmd.Flags().Visit(func(f *pflag.Flag) { v.Set(f.Name, f.Value.String()) })
+		got, lerr = config.LoadFromViper(v)
+	case drvViperBound:
+		// the way an application that owns a viper (cobra/viper server context) obtains flag values: bind the command's flags
+		v := viper.New()
+		if err := v.BindPFlags(cmd.Flags()); err != nil {
+			return got, nil, err
+		}
+		got, lerr = config.LoadFromViper(v)
+	default:
+		return got, nil, fmt.Errorf("unknown driver %q", driver)
+	}
+	return got, lerr, nil
+}
+
 // execute performs the file write, flag parse and load of one spec on a fresh home/command and returns what was loaded.
 func (w *world) execute(s spec) (outcome, error) { return w.executeOpt(s, true, true) }
 
@@ -565,7 +594,6 @@ func (w *world) executeOpt(s spec, resetBefore, resetAfter bool) (outcome, error
 	default:
 		return o, fmt.Errorf("unknown file mode %q", s.FileMode)
 	}
-	cmd := newCmd()
 	args := []string{"--" + config.FlagRootDir + "=" + home}
 	for _, f := range sortedKeys(s.Flags) {
 		if f == config.FlagRootDir {
@@ -574,26 +602,10 @@ func (w *world) executeOpt(s spec, resetBefore, resetAfter bool) (outcome, error
 		}
 		args = append(args, "--"+f+"="+s.Flags[f])
 	}
-	if err := cmd.ParseFlags(args); err != nil {
-		return o, fmt.Errorf("flag parsing failed (%v): %w", args, err)
-	}
-	switch s.Driver {
-	case drvLoad:
-		o.got, o.err = config.Load(cmd)
-	case drvViperSet:
-		// the way the repository's own TestLoadFromViper drives it: explicit Set of the home and of each given flag
-		v := viper.New()
-		cmd.Flags().Visit(func(f *pflag.Flag) { v.Set(f.Name, f.Value.String()) })
-		o.got, o.err = config.LoadFromViper(v)
-	case drvViperBound:
-		// the way an application that owns a viper (cobra/viper server context) obtains flag values: bind the command's flags
-		v := viper.New()
-		if err := v.BindPFlags(cmd.Flags()); err != nil {
-			return o, err
-		}
-		o.got, o.err = config.LoadFromViper(v)
-	default:
-		return o, fmt.Errorf("unknown driver %q", s.Driver)
+	var herr error
+	o.got, o.err, herr = loadArgs(s.Driver, args)
+	if herr != nil {
+		return o, herr
 	}
 	// did the load change the package-level defaults?
 	after := cloneConfig(config.DefaultConfig)
@@ -711,6 +723,10 @@ type checker struct {
 	byKnd   map[string]int64
 	tally   map[string]int64 // reported oracle failures by clause and main tags (evidence, development aid)
 	mutated map[string]int64 // observation: loads that changed the package-level DefaultConfig, by leaf
+
+	cfgLen, genLen map[string]int // measured serialized lengths (resave_test.go)
+	initErrors     int64          // init sequences not judged because `init` itself returned an error
+	firstInitError string
 }
 
 // noteMutation records (as an observation, not as a verdict: the property speaks about one load) that a load wrote
@@ -742,7 +758,7 @@ func (c *checker) run(s spec) {
 	c.seen[k] = true
 	c.evals++
 	c.byKnd[s.Kind+"/"+s.Driver]++
-	if len(s.File)+len(s.Flags) > 0 || s.Gen != nil {
+	if len(s.File)+len(s.Flags) > 0 || s.Gen != nil || len(s.Seq) > 0 {
 		c.nontr++
 	}
 	switch s.Kind {
@@ -754,6 +770,10 @@ func (c *checker) run(s spec) {
 		c.runLoadAfterLoad(s)
 	case "genesis", "genesis-invalid", "genesis-create", "genesis-text":
 		c.runGenesis(s)
+	case "resave":
+		c.runResave(s)
+	case "genesis-resave":
+		c.runGenesisResave(s)
 	default:
 		c.r.EngineError("unknown spec kind " + s.Kind)
 	}
@@ -1276,7 +1296,7 @@ func TestCheck(t *testing.T) {
 	r := vf.Start("C18", "exploration")
 	w := newWorld(r)
 	scrubEnv(w)
-	c := &checker{r: r, w: w, seen: map[string]bool{}, byKnd: map[string]int64{}, tally: map[string]int64{}, mutated: map[string]int64{}}
+	c := &checker{r: r, w: w, seen: map[string]bool{}, byKnd: map[string]int64{}, tally: map[string]int64{}, mutated: map[string]int64{}, cfgLen: map[string]int{}, genLen: map[string]int{}}
 	r.Assume = []string{
 		"the defaults are config.DefaultConfig as it stands when the process starts (defaults.go); the reference only adds flag > file > default on top",
 		"environment variables (viper.AutomaticEnv/BindEnv) are outside the property and are unset for the run",
@@ -1467,6 +1487,74 @@ func TestCheck(t *testing.T) {
 		}
 	}
 
+	// (3c) operation SEQUENCES on one home (resave_test.go): every ordered pair of a set of configurations that differ in
+	// serialized length and content, written one over the other with SaveAsYaml and through the init command's Load -> SaveAsYaml
+	resaveStart := time.Now()
+	resaveSet := w.resaveConfigs(vf.Pick(r, 1, 0), 1)
+	var initSet []namedCfg
+	{
+		seenProj := map[string]bool{}
+		for i, n := range resaveSet {
+			if !thorough && i >= 6 {
+				break
+			}
+			p := w.initProjection(n)
+			kb, _ := json.Marshal(p.File)
+			if seenProj[string(kb)] {
+				continue
+			}
+			seenProj[string(kb)] = true
+			initSet = append(initSet, p)
+		}
+	}
+	cfgLens, initLens := map[string]int{}, map[string]int{}
+	var cl, il []int
+	for _, n := range resaveSet {
+		cfgLens[n.Name] = c.lenOfFile(n.File)
+		cl = append(cl, cfgLens[n.Name])
+	}
+	for _, n := range initSet {
+		initLens[n.Name] = c.lenOfFile(n.File)
+		il = append(il, initLens[n.Name])
+	}
+	resaveByShape := map[string]int64{}
+	seqSpecs := c.resaveSpecs(resaveSet, drivers)
+	seqSpecs = append(seqSpecs, c.initSpecs(initSet, vf.Pick(r, drivers[:1], drivers))...)
+	for i, s := range seqSpecs {
+		if capped() {
+			break
+		}
+		before := c.evals
+		c.run(s)
+		resaveByShape[s.Shape] += c.evals - before
+		if i%397 == 5 {
+			r.Sample(s)
+		}
+	}
+	genSet := genesisResaveSet(thorough)
+	var gl []int
+	genLens := map[string]int{}
+	for _, n := range genSet {
+		genLens[n.Name] = c.lenOfGen(n.Gen)
+		gl = append(gl, genLens[n.Name])
+	}
+	for i, s := range genesisResaveSpecs(genSet) {
+		if capped() {
+			break
+		}
+		before := c.evals
+		c.run(s)
+		resaveByShape[s.Shape] += c.evals - before
+		if i == 7 {
+			r.Sample(s)
+		}
+	}
+	resaveWall := time.Since(resaveStart).Seconds() // information only, never an oracle
+	if c.initErrors > 0 {
+		// vacuity guard for the init path: on the unchanged tree every init of these sequences succeeds
+		fmt.Fprintf(os.Stderr, "C18: %d init sequences were not judged because init returned an error, first: %s\n", c.initErrors, c.firstInitError)
+	}
+
 	// (4) genesis
 	gs := genesisSpecs(thorough)
 	for i, s := range gs {
@@ -1488,14 +1576,22 @@ func TestCheck(t *testing.T) {
 		Evaluations: c.evals, DistinctNontrivial: c.nontr,
 		Rule: "one evaluation = one (file, flags) case written to a fresh home and loaded through the real Load / LoadFromViper (or one genesis file saved and loaded); " +
 			"cases: per leaf {no file, sparse file, complete file} x {no flag, flag} x every value of the leaf's type incl. the default given explicitly; per registered flag alone; " +
-			"save->load of every single leaf, every pair of leaves and all leaves at once; genesis over chain ids x heights x times x addresses, all 15 combinations of the four invalid shapes and hand-made invalid files; " +
+			"save->load of every single leaf, every pair of leaves and all leaves at once; " +
+			"sequences on ONE home (one evaluation = one whole sequence): for every ordered pair (A,B) of the resave configuration set and every driver save(A) save(B) load, save(A) save(B) save(A) load, " +
+			"save(A) load save(B) load save(A) load, and load save(A) load; the same pairs of the flag-expressible subset through the configuration part of the `init` command (apps/*/cmd/init.go: Load -> SaveAsYaml) (init init load, init/load x3, save init load, init save load); " +
+			"for every ordered pair of the genesis resave set Save Save Load, Save Save Save Load and Load Save Load Save Load on one path; every load must return what the last write was given; genesis over chain ids x heights x times x addresses, all 15 combinations of the four invalid shapes and hand-made invalid files; " +
 			"distinct = distinct case descriptors, non-trivial = at least one option given by file or flag (or a genesis case)",
 		Exhaustive: len(caps) == 0, Caps: caps,
 		Bounds: map[string]any{
 			"leaves": len(w.leaves), "file_leaves": len(fileLeaves), "flags": len(w.flags), "drivers": drivers,
 			"values_per_kind_incl_default": perLeafValues, "leaf_pairs_roundtripped": pairs, "genesis_cases": len(gs),
+			"resave_configurations_bytes_written_to_a_fresh_home": cfgLens, "resave_length_spread": lengthSpread(cl),
+			"resave_init_configurations_bytes": initLens, "resave_init_length_spread": lengthSpread(il),
+			"genesis_resave_set_bytes": genLens, "genesis_resave_length_spread": lengthSpread(gl),
+			"resave_sequences_by_shape": resaveByShape, "resave_init_sequences_not_judged_because_init_failed": c.initErrors,
 			"leaves_without_flag": noFlag, "leaves_not_in_file_by_tag": notInFile, "flags_naming_no_option": unnamed, "cases_by_kind": c.byKnd,
 		},
-		Extra: map[string]any{"flag_names": flagNames, "oracle_failures_by_clause_and_tags": c.tally, "observation_loads_that_mutated_package_defaults_by_leaf": c.mutated},
+		Extra: map[string]any{"flag_names": flagNames, "oracle_failures_by_clause_and_tags": c.tally, "observation_loads_that_mutated_package_defaults_by_leaf": c.mutated,
+			"resave_sequences_wall_seconds": resaveWall},
 	})
 }
